@@ -11,8 +11,12 @@ package main
 //        n2 S R W N1 N2             two island calls with different N on the same objects (cache)
 //        load PATH                  name.Load in both packages
 //        pair S R W S' R' W' DEPTH PER   two names, their locations, equal or not
+//        chain S R W N DEPTH PER          the name is built step by step, island / path are asked on the sanctuary- and realm-level
+//                                       objects first; the finished name must answer like a freshly built one
+//        routes N FROM-TO,…             the SDK client's routing table over real TLS stub servers: see c20route.go
 // reply: sdk=I|panic srv=F|panic|na path=P|panic again=same|diff
-//        sdk=I1,I2 srv=F1,F2
+//        sdk=I1,I2!FRESH srv=F1,F2!FRESH      (FRESH: what a new name object answers for N2)
+//        sdk=I path=P fresh=true|false        (chain)
 //        sdk=S.R.W|panic srv=S.R.W|panic
 //        p1=P|panic p2=P|panic same|diff
 //
@@ -180,7 +184,7 @@ func c20N(rng *rand.Rand) uint64 {
 }
 
 func c20Gen(rng *rand.Rand, tier string, w *bufio.Writer) {
-	n := 4000
+	n := 2500
 	if tier == "thorough" {
 		n = 120000
 	}
@@ -222,6 +226,47 @@ func c20Gen(rng *rand.Rand, tier string, w *bufio.Writer) {
 		emitN(s, r, sw, 1000, 3, 2000)
 		emitN(s, r, sw, 1000, 1+rng.Intn(4), c20Pers[rng.Intn(len(c20Pers))])
 	}
+	// client routing table: partitions (shuffled), gaps, overlaps, empty and reversed ranges
+	fmt.Fprintln(w, "case 100")
+	for _, r := range []string{"10 1-5,6-10", "10 1-5,7-10", "10 1-6,5-10", "10 -", "8 0-3,4-12", "6 4-6,1-3,2-2", "5 5-1", "1 1-1", "12 9-12,1-4,5-8"} {
+		fmt.Fprintln(w, "routes "+r)
+	}
+	nr := 60
+	if tier == "thorough" {
+		nr = 1500
+	}
+	for i := 0; i < nr; i++ {
+		N := 1 + rng.Intn(24)
+		k := 1 + rng.Intn(6)
+		var rs []string
+		if rng.Intn(2) == 0 {
+			// a true partition of 1..N into at most k ranges, in random order
+			cuts := map[int]bool{N: true}
+			for len(cuts) < k && len(cuts) < N {
+				cuts[1+rng.Intn(N)] = true
+			}
+			from := 1
+			for c := 1; c <= N; c++ {
+				if cuts[c] {
+					rs = append(rs, fmt.Sprintf("%d-%d", from, c))
+					from = c + 1
+				}
+			}
+			rng.Shuffle(len(rs), func(a, b int) { rs[a], rs[b] = rs[b], rs[a] })
+			if rng.Intn(6) == 0 && len(rs) > 1 { // drop one range: a gap
+				rs = rs[1:]
+			}
+		} else {
+			for j := 0; j < k; j++ {
+				a, b := rng.Intn(N+2), rng.Intn(N+3)
+				if rng.Intn(5) != 0 && a > b {
+					a, b = b, a
+				}
+				rs = append(rs, fmt.Sprintf("%d-%d", a, b))
+			}
+		}
+		fmt.Fprintf(w, "routes %d %s\n", N, strings.Join(rs, ","))
+	}
 	for i := 0; i < n; i++ {
 		if i%500 == 0 {
 			fmt.Fprintf(w, "case %d\n", 1+i/500)
@@ -237,6 +282,8 @@ func c20Gen(rng *rand.Rand, tier string, w *bufio.Writer) {
 				d, p = defD, defP
 			}
 			emitN(s, r, sw, c20N(rng), d, p)
+		case x < 12:
+			fmt.Fprintf(w, "chain %s %s %s %d %d %d\n", c20Hex(s), c20Hex(r), c20Hex(sw), 1+rng.Intn(65535), rng.Intn(2), 1+rng.Intn(3000))
 		case x < 13:
 			fmt.Fprintf(w, "n2 %s %s %s %d %d\n", c20Hex(s), c20Hex(r), c20Hex(sw), uint64(rng.Intn(65536)), uint64(rng.Intn(65536)))
 		case x < 15:
@@ -268,6 +315,8 @@ func c20Gen(rng *rand.Rand, tier string, w *bufio.Writer) {
 				b[rng.Intn(3)] = c20Part(rng)
 			}
 			emitPair(a, b, c20Depths[1+rng.Intn(6)], c20Pers[3+rng.Intn(12)])
+		case x < 19: // same swamp part under another sanctuary / realm, shallow layouts: the leaf folder alone must tell them apart
+			emitPair([3][]byte{s, r, sw}, [3][]byte{c20Part(rng), c20Part(rng), sw}, rng.Intn(2), 1000)
 		default:
 			emitPair([3][]byte{s, r, sw}, [3][]byte{c20Part(rng), c20Part(rng), c20Part(rng)}, 1, 1000)
 		}
@@ -286,6 +335,12 @@ func c20Try(f func() string) (out string) {
 }
 
 func c20Run(in *bufio.Scanner, w *bufio.Writer) {
+	var farm *c20Farm
+	defer func() {
+		if farm != nil {
+			farm.Stop()
+		}
+	}()
 	for in.Scan() {
 		line := in.Text()
 		f := strings.Split(line, " ")
@@ -293,6 +348,18 @@ func c20Run(in *bufio.Scanner, w *bufio.Writer) {
 		switch {
 		case f[0] == "case":
 			fmt.Fprintln(w, line)
+		case f[0] == "routes" && len(f) == 3:
+			if farm == nil {
+				miscQuiet()
+				var err error
+				if farm, err = c20NewFarm(); err != nil {
+					fmt.Fprintln(os.Stderr, "c20 farm:", err)
+					fmt.Fprintln(w, "err farm")
+					farm = nil
+					continue
+				}
+			}
+			fmt.Fprintln(w, c20Routes(farm, f[1], f[2]))
 		case f[0] == "n" && len(f) == 7:
 			s, o1 := c20Unhex(f[1])
 			r, o2 := c20Unhex(f[2])
@@ -343,7 +410,46 @@ func c20Run(in *bufio.Scanner, w *bufio.Writer) {
 			a2 := c20Try(func() string { return strconv.FormatUint(sn.GetIslandID(n2), 10) })
 			b1 := c20Try(func() string { return strconv.FormatUint(uint64(vn.GetFolderNumber(uint16(n1))), 10) })
 			b2 := c20Try(func() string { return strconv.FormatUint(uint64(vn.GetFolderNumber(uint16(n2))), 10) })
-			fmt.Fprintf(w, "sdk=%s,%s srv=%s,%s\n", a1, a2, b1, b2)
+			// what FRESH name objects answer for the second island count
+			fa := c20Try(func() string {
+				return strconv.FormatUint(sdkname.New().Sanctuary(string(s)).Realm(string(r)).Swamp(string(sw)).GetIslandID(n2), 10)
+			})
+			fb := c20Try(func() string {
+				return strconv.FormatUint(uint64(srvname.New().Sanctuary(string(s)).Realm(string(r)).Swamp(string(sw)).GetFolderNumber(uint16(n2))), 10)
+			})
+			fmt.Fprintf(w, "sdk=%s,%s!%s srv=%s,%s!%s\n", a1, a2, fa, b1, b2, fb)
+		case f[0] == "chain" && len(f) == 7:
+			// builder chain with calls on the intermediate objects: a child must not inherit what its parent memoised
+			s, o1 := c20Unhex(f[1])
+			r, o2 := c20Unhex(f[2])
+			sw, o3 := c20Unhex(f[3])
+			N, e1 := strconv.ParseUint(f[4], 10, 16)
+			d, e2 := strconv.Atoi(f[5])
+			p, e3 := strconv.Atoi(f[6])
+			if !o1 || !o2 || !o3 || e1 != nil || e2 != nil || e3 != nil || N == 0 || d < 0 || d > 1 {
+				bad()
+				continue
+			}
+			out := c20Try(func() string {
+				sp := sdkname.New().Sanctuary(string(s))
+				_ = sp.GetIslandID(N)
+				sr := sp.Realm(string(r))
+				_ = sr.GetIslandID(N)
+				sc := sr.Swamp(string(sw))
+				vp := srvname.New().Sanctuary(string(s))
+				_ = vp.GetFolderNumber(uint16(N))
+				_ = vp.GetFullHashPath("/r", 1, d, p)
+				vr := vp.Realm(string(r))
+				_ = vr.GetFolderNumber(uint16(N))
+				_ = vr.GetFullHashPath("/r", 1, d, p)
+				vc := vr.Swamp(string(sw))
+				fs := sdkname.New().Sanctuary(string(s)).Realm(string(r)).Swamp(string(sw))
+				fv := srvname.New().Sanctuary(string(s)).Realm(string(r)).Swamp(string(sw))
+				same := sc.GetIslandID(N) == fs.GetIslandID(N) && vc.GetFolderNumber(uint16(N)) == fv.GetFolderNumber(uint16(N)) &&
+					vc.GetFullHashPath("/r", 1, d, p) == fv.GetFullHashPath("/r", 1, d, p) && sc.Get() == fs.Get() && vc.Get() == fv.Get()
+				return fmt.Sprintf("sdk=%d path=%s fresh=%v", sc.GetIslandID(N), vc.GetFullHashPath("/r", 1, d, p), same)
+			})
+			fmt.Fprintln(w, out)
 		case f[0] == "load" && len(f) == 2:
 			p, ok := c20Unhex(f[1])
 			if !ok {
